@@ -945,8 +945,19 @@ func linkArtifacts(path string) string {
 		if !ok {
 			return "not-a-link"
 		}
-		return fmt.Sprintf("materials=%s products=%s", actualPairs(l.Materials), actualPairs(l.Products))
+		wrapper := "legacy"
+		if _, isEnv := mb.(*intoto.Envelope); isEnv {
+			wrapper = "dsse"
+		}
+		return fmt.Sprintf("wrapper=%s materials=%s products=%s", wrapper, actualPairs(l.Materials), actualPairs(l.Products))
 	})
+}
+
+func wrapperName(dsse bool) string {
+	if dsse {
+		return "dsse"
+	}
+	return "legacy"
 }
 
 func listDir(d string) map[string]bool {
@@ -1098,7 +1109,7 @@ func (w *world) runStep(i int, s StepCfg, k *funcKey, noisy, rerun bool) {
 		"name="+want+" loader=T", coqNameObs(s.Name, k.keyID))
 	// the link lists exactly the named files
 	w.put("link-artifacts"+sub, "artifacts in the link of "+s.Name+" by "+k.name+tag, nil, "", linkArtifacts(filepath.Join(w.linkDir, want)),
-		fmt.Sprintf("materials=%s products=%s", w.expectedPairs(w.expectedArtifacts(i, s, false, noisy)), w.expectedPairs(w.expectedArtifacts(i, s, true, noisy))), "")
+		fmt.Sprintf("wrapper=%s materials=%s products=%s", wrapperName(s.DSSE), w.expectedPairs(w.expectedArtifacts(i, s, false, noisy)), w.expectedPairs(w.expectedArtifacts(i, s, true, noisy))), "")
 	if noisy {
 		// back to the state before the step: the second execution starts from the same materials
 		dir := filepath.Join(ws, filepath.FromSlash(w.prefix()))
@@ -1381,8 +1392,13 @@ func (w *world) runAll() (cases []lib.Case) {
 	w.signVerifyCases(signed)
 	w.keyCases()
 	w.matchProductsCases(final)
-	if cfg.Index%3 == 0 {
+	switch cfg.Index % 3 {
+	case 0:
 		w.commandArgumentCases()
+	case 1:
+		w.flagDefaultCases()
+	default:
+		w.errorPathCases(signed)
 	}
 	return w.cases
 }
